@@ -8,7 +8,7 @@ namespace Pyr.Session
 
 /-- the Python attribute an operation of the model goes through -/
 def methodOf : Op → String
-  | .get _ => "get" | .getitem _ => "__getitem__" | .contains _ => "__contains__" | .len => "__len__"
+  | .get _ _ => "get" | .getitem _ => "__getitem__" | .contains _ => "__contains__" | .len => "__len__"
   | .keys => "keys" | .items => "items" | .values => "values" | .iter => "__iter__"
   | .set _ _ => "__setitem__" | .del _ => "__delitem__" | .update _ => "update" | .pop _ _ => "pop"
   | .popitem => "popitem" | .setdefault _ _ => "setdefault" | .clear => "clear"
@@ -19,7 +19,7 @@ def methodOf : Op → String
 /-- the wrapper `runOp` applies FIRST for each operation (`invalidate` and `changed` are plain methods; `invalidate`
 reaches the `manage_changed` wrapper through `self.clear()`) -/
 def sourceWrapOf : Op → String
-  | .get _ | .getitem _ | .contains _ | .len | .keys | .items | .values | .iter => "manage_accessed"
+  | .get _ _ | .getitem _ | .contains _ | .len | .keys | .items | .values | .iter => "manage_accessed"
   | .peekFlash _ | .getCsrf _ => "manage_accessed"
   | .invalidate | .changed => "plain"
   | _ => "manage_changed"
